@@ -134,7 +134,6 @@ theorem triangular_cdf_median (d : Triangular ℝ) (h1 : d.f_min ≤ d.f_mode) (
   have hba : 0 < d.f_max - d.f_min := by linarith
   unfold Triangular.cdf Triangular.median
   rfun_norm
-  simp only []
   by_cases hb : (d.f_min + d.f_max) / (2.0:ℝ) ≤ d.f_mode
   · simp only [if_pos hb]
     have hb' : (d.f_min + d.f_max) / 2 ≤ d.f_mode := by norm_num at hb; exact hb
@@ -185,5 +184,192 @@ theorem dirac_median (d : Dirac ℝ) :
   · intro x hx; rw [if_pos hx]; norm_num
 
 example : ∃ d : Dirac ℝ, True := ⟨⟨0⟩, trivial⟩
+
+/-! ## discrete families: `P(X ≤ m) ≥ 1/2 ∧ P(X < m) ≤ 1/2`
+`median()` returns a float; `P(X ≤ m)` is `cdf ⌊m⌋`, and `P(X < m) ≤ 1/2` is stated as
+`cdf k ≤ 1/2` for every integer `k < m` (restricted to `0 ≤ k` where the argument type is `u64`). -/
+
+/-- the two-sided median condition for Bernoulli -/
+def BernoulliMedianOk (d : Bernoulli ℝ) : Prop :=
+  1 / 2 ≤ Bernoulli.cdf d ⌊Bernoulli.median d⌋ ∧
+    ∀ k : Int, 0 ≤ k → (k : ℝ) < Bernoulli.median d → Bernoulli.cdf d k ≤ 1 / 2
+
+theorem bernoulli_median_eq (d : Bernoulli ℝ) (hn : d.f_b.f_n = 1) :
+    Bernoulli.median d = (⌊d.f_b.f_p⌋ : ℝ) := by
+  unfold Bernoulli.median Binomial.median
+  rfun_norm
+  rw [hn]; norm_num
+
+/-- Bernoulli (`new p` builds `Binomial p 1` with `0 ≤ p ≤ 1`): `median() = ⌊p⌋` is a median
+    exactly when `p ≤ 1/2` or `p = 1`. -/
+theorem bernoulli_median_iff (d : Bernoulli ℝ) (hn : d.f_b.f_n = 1) (h0 : 0 ≤ d.f_b.f_p) (h1 : d.f_b.f_p ≤ 1) :
+    BernoulliMedianOk d ↔ (d.f_b.f_p ≤ 1 / 2 ∨ d.f_b.f_p = 1) := by
+  unfold BernoulliMedianOk
+  rw [bernoulli_median_eq d hn]
+  unfold Bernoulli.cdf Binomial.p
+  rcases lt_or_eq_of_le h1 with hlt | heq
+  · have hf : ⌊d.f_b.f_p⌋ = 0 := by rw [Int.floor_eq_iff]; norm_num; exact ⟨h0, hlt⟩
+    rw [hf]
+    simp only [Int.floor_intCast]
+    norm_num
+    constructor
+    · intro h; left; linarith [h.1]
+    · intro h
+      rcases h with h | h
+      · refine ⟨by linarith, ?_⟩
+        intro k hk hk'; exfalso
+        have : k < 0 := by exact_mod_cast hk'
+        omega
+      · exfalso; linarith
+  · have hf : ⌊d.f_b.f_p⌋ = 1 := by rw [heq]; norm_num
+    rw [hf]
+    simp only [Int.floor_intCast]
+    norm_num
+    constructor
+    · intro _; right; exact heq
+    · intro _ k hk hk'
+      have : k < 1 := by exact_mod_cast hk'
+      have hk0 : ¬ (1 ≤ k) := by omega
+      rw [if_neg hk0, heq]; norm_num
+
+/-- FINDING: for `p = 3/4` Bernoulli's `median()` is 0 although `P(X ≤ 0) = 1/4 < 1/2`
+    (the true median is 1). -/
+theorem bernoulli_median_counterexample :
+    ∃ d : Bernoulli ℝ, d.f_b.f_n = 1 ∧ 0 ≤ d.f_b.f_p ∧ d.f_b.f_p ≤ 1 ∧
+      Bernoulli.median d = 0 ∧ Bernoulli.cdf d 0 = 1 / 4 ∧ ¬ BernoulliMedianOk d := by
+  refine ⟨⟨⟨3 / 4, 1⟩⟩, rfl, by norm_num, by norm_num, ?_, ?_, ?_⟩
+  · rw [bernoulli_median_eq _ rfl]
+    have : ⌊(3 / 4 : ℝ)⌋ = 0 := by rw [Int.floor_eq_iff]; norm_num
+    simp [this]
+  · unfold Bernoulli.cdf Binomial.p; norm_num
+  · rw [bernoulli_median_iff _ rfl (by norm_num) (by norm_num)]
+    norm_num
+
+example : ∃ d : Bernoulli ℝ, d.f_b.f_n = 1 ∧ 0 ≤ d.f_b.f_p ∧ d.f_b.f_p ≤ 1 := ⟨⟨⟨1 / 4, 1⟩⟩, rfl, by norm_num, by norm_num⟩
+
+theorem discrete_uniform_median_eq (d : DiscreteUniform) :
+    DiscreteUniform.median (α := ℝ) d = ((d.f_min : ℝ) + (d.f_max : ℝ)) / 2 := by
+  unfold DiscreteUniform.median
+  rfun_norm
+  push_cast; norm_num
+
+/-- closed form of the cdf between the bounds -/
+theorem discrete_uniform_cdf_mid (d : DiscreteUniform) (h : d.f_min ≤ d.f_max) (x : Int)
+    (h1 : d.f_min ≤ x) (h2 : x < d.f_max) :
+    DiscreteUniform.cdf (α := ℝ) d x = ((x : ℝ) - d.f_min + 1) / ((d.f_max : ℝ) - d.f_min + 1) := by
+  unfold DiscreteUniform.cdf
+  rfun_norm
+  rw [if_neg (by omega), if_neg (by omega)]
+  have ha : (d.f_min : ℝ) ≤ x := by exact_mod_cast h1
+  have hb : (x : ℝ) < d.f_max := by exact_mod_cast h2
+  have hden : (0:ℝ) < (d.f_max : ℝ) - d.f_min + 1 := by linarith
+  have : ¬ ((1.0:ℝ) < ((x : ℝ) - d.f_min + (1.0:ℝ)) / ((d.f_max : ℝ) - d.f_min + (1.0:ℝ))) := by
+    norm_num
+    rw [div_le_one hden]; linarith
+  rw [if_neg this]
+  norm_num
+
+/-- DiscreteUniform (`min ≤ max`): `median() = (min+max)/2` satisfies `P(X ≤ m) ≥ 1/2` and
+    `P(X < m) ≤ 1/2`. -/
+theorem discrete_uniform_median (d : DiscreteUniform) (h : d.f_min ≤ d.f_max) :
+    1 / 2 ≤ DiscreteUniform.cdf (α := ℝ) d ⌊DiscreteUniform.median (α := ℝ) d⌋ ∧
+      ∀ k : Int, (k : ℝ) < DiscreteUniform.median (α := ℝ) d → DiscreteUniform.cdf (α := ℝ) d k ≤ 1 / 2 := by
+  rw [discrete_uniform_median_eq]
+  have hab : (d.f_min : ℝ) ≤ d.f_max := by exact_mod_cast h
+  constructor
+  · set m : Int := ⌊((d.f_min : ℝ) + (d.f_max : ℝ)) / 2⌋ with hm
+    have hlo : d.f_min ≤ m := by
+      rw [hm, Int.le_floor]; linarith
+    have hup : ((d.f_min : ℝ) + d.f_max) / 2 < m + 1 := Int.lt_floor_add_one _
+    have hint : d.f_min + d.f_max + 1 ≤ 2 * m + 2 := by
+      have : ((d.f_min + d.f_max : Int) : ℝ) < ((2 * m + 2 : Int) : ℝ) := by push_cast; linarith
+      have := Int.cast_lt.mp this
+      omega
+    by_cases hmx : d.f_max ≤ m
+    · unfold DiscreteUniform.cdf
+      rw [if_neg (by omega), if_pos hmx]; norm_num
+    · rw [discrete_uniform_cdf_mid d h m hlo (by omega)]
+      have hden : (0:ℝ) < (d.f_max : ℝ) - d.f_min + 1 := by linarith
+      rw [le_div_iff₀ hden]
+      have : ((d.f_min + d.f_max + 1 : Int) : ℝ) ≤ ((2 * m + 2 : Int) : ℝ) := Int.cast_le.mpr hint
+      push_cast at this
+      linarith
+  · intro k hk
+    have hint : 2 * k + 1 ≤ d.f_min + d.f_max := by
+      have : ((2 * k : Int) : ℝ) < ((d.f_min + d.f_max : Int) : ℝ) := by push_cast; linarith
+      have := Int.cast_lt.mp this
+      omega
+    by_cases hka : k < d.f_min
+    · unfold DiscreteUniform.cdf
+      rw [if_pos hka]; norm_num
+    · rw [discrete_uniform_cdf_mid d h k (by omega) (by omega)]
+      have hden : (0:ℝ) < (d.f_max : ℝ) - d.f_min + 1 := by linarith
+      rw [div_le_iff₀ hden]
+      have : ((2 * k + 1 : Int) : ℝ) ≤ ((d.f_min + d.f_max : Int) : ℝ) := Int.cast_le.mpr hint
+      push_cast at this
+      linarith
+
+example : ∃ d : DiscreteUniform, d.f_min ≤ d.f_max := ⟨⟨0, 1⟩, by norm_num⟩
+
+theorem geometric_cdf_eq (d : Geometric ℝ) (x : Int) (hx : x ≠ 0) :
+    Geometric.cdf d x = 1 - Real.exp (Real.log (1 - d.f_p) * x) := by
+  unfold Geometric.cdf
+  rfun_norm
+  rw [if_neg hx]
+  ring_nf
+
+theorem geometric_median_eq (d : Geometric ℝ) :
+    Geometric.median d = (⌈-Real.log 2 / Real.log (1 - d.f_p)⌉ : ℝ) := by
+  unfold Geometric.median
+  rfun_norm
+  norm_num
+
+/-- Geometric, `0 < p < 1` (the constructor also accepts `p = 1`, see the counterexample below):
+    `median()` satisfies `P(X ≤ m) ≥ 1/2` and `P(X < m) ≤ 1/2`. -/
+theorem geometric_median_partial (d : Geometric ℝ) (h0 : 0 < d.f_p) (h1 : d.f_p < 1) :
+    1 / 2 ≤ Geometric.cdf d ⌈Geometric.median d⌉ ∧
+      ∀ k : Int, 0 ≤ k → (k : ℝ) < Geometric.median d → Geometric.cdf d k ≤ 1 / 2 := by
+  rw [geometric_median_eq]
+  simp only [Int.ceil_intCast]
+  have hL : Real.log (1 - d.f_p) < 0 := Real.log_neg (by linarith) (by linarith)
+  have hl2 : 0 < Real.log 2 := Real.log_pos (by norm_num)
+  have hr : 0 < -Real.log 2 / Real.log (1 - d.f_p) := div_pos_of_neg_of_neg (by linarith) hL
+  have hhalf : Real.exp (-Real.log 2) = 1 / 2 := by
+    rw [Real.exp_neg, Real.exp_log (by norm_num)]; norm_num
+  constructor
+  · have hm : 0 < ⌈-Real.log 2 / Real.log (1 - d.f_p)⌉ := Int.ceil_pos.mpr hr
+    rw [geometric_cdf_eq d _ hm.ne']
+    have hle : -Real.log 2 / Real.log (1 - d.f_p) ≤ (⌈-Real.log 2 / Real.log (1 - d.f_p)⌉ : ℝ) := Int.le_ceil _
+    have : Real.log (1 - d.f_p) * (⌈-Real.log 2 / Real.log (1 - d.f_p)⌉ : ℝ) ≤ -Real.log 2 := by
+      rw [div_le_iff_of_neg hL] at hle
+      linarith
+    have := Real.exp_le_exp.mpr this
+    rw [hhalf] at this
+    linarith
+  · intro k hk0 hk
+    by_cases hz : k = 0
+    · unfold Geometric.cdf; rw [if_pos hz]; norm_num
+    · rw [geometric_cdf_eq d k hz]
+      have hkr : (k : ℝ) < -Real.log 2 / Real.log (1 - d.f_p) := Int.lt_ceil.mp (by exact_mod_cast hk)
+      have : -Real.log 2 < Real.log (1 - d.f_p) * (k : ℝ) := by
+        rw [lt_div_iff_of_neg hL] at hkr
+        linarith
+      have := Real.exp_lt_exp.mpr this
+      rw [hhalf] at this
+      linarith
+
+example : ∃ d : Geometric ℝ, 0 < d.f_p ∧ d.f_p < 1 := ⟨⟨1 / 2⟩, by norm_num⟩
+
+/-- FINDING: `Geometric::new(1.0)` is accepted, its `median()` is `ceil(-ln 2 / ln 0) = 0`, which is
+    below `min() = 1` (the distribution is the point mass at 1) and has `cdf 0 = 0 < 1/2`.
+    (Over ℝ `log 0 = 0` and `x/0 = 0`; in IEEE `-ln2 / -inf = 0` gives the same value 0.) -/
+theorem geometric_median_counterexample :
+    ∃ d : Geometric ℝ, 0 < d.f_p ∧ d.f_p ≤ 1 ∧ Geometric.median d = 0 ∧
+      (⌈Geometric.median d⌉ < Geometric.min d) ∧ Geometric.cdf d ⌈Geometric.median d⌉ = 0 := by
+  have hm : Geometric.median (⟨1⟩ : Geometric ℝ) = 0 := by
+    rw [geometric_median_eq]; norm_num
+  refine ⟨⟨1⟩, by norm_num, by norm_num, hm, ?_, ?_⟩
+  · rw [hm]; unfold Geometric.min; norm_num
+  · rw [hm]; unfold Geometric.cdf; norm_num
 
 end Statrs.Props.C08
